@@ -148,8 +148,27 @@ fn concat_laws(rep: &mut Report, id: i32, rng: &mut Rng, rounds: usize) {
                 json!({"kind": "concat", "page": id, "string": s}),
             );
         }
-        // decoding the whole must give back the per-char decodings too (decode accepts any bytes)
-        let _ = p.decode(&lib);
+        // decoding the whole gives back the per-character decodings (none of the 26 pages is stateful, and every
+        // per-character encoding is a complete sequence): a decoder that works piecewise must not cut a sequence
+        let whole = p.decode(&lib);
+        let mut want_dec = String::with_capacity(s.len());
+        for c in s.chars() {
+            one.clear();
+            one.push(c);
+            want_dec.push_str(&p.decode(&p.encode(&one)));
+        }
+        if lib == want && whole != want_dec {
+            let pos = whole.chars().zip(want_dec.chars()).position(|(a, b)| a != b).unwrap_or(0);
+            rep.violation(
+                format!("C14/concat-decode/cp{}", id),
+                format!(
+                    "code page {}: decode of the {} encoded bytes of a {}-char string ({}) differs from the concatenation of its characters' decodings at char {} ({} vs {} chars)",
+                    id, lib.len(), s.chars().count(), what, pos, whole.chars().count(), want_dec.chars().count()
+                ),
+                json!({"kind": "concat", "page": id, "string": s}),
+            );
+        }
+        rep.count("concat_decodes");
         rep.case(Some(fnv(format!("concat{}:{}:{}", id, what, lib.len()).as_bytes())));
         rep.count("concat_strings");
     };
@@ -170,13 +189,22 @@ fn concat_laws(rep: &mut Report, id: i32, rng: &mut Rng, rounds: usize) {
             }
         }
         // multiples of the buffer: boundaries at 1024, 2048, 3072
-        for k in [2usize, 3] {
+        for k in [2usize, 3, 4, 5, 8, 12, 16] {
             for d in 0..6usize {
                 let mut s = "x".repeat(1024 * k - 3 + d);
                 s.push(m);
                 s.push('z');
                 check(rep, &s, &format!("marker U+{:04X} near {}KiB", m as u32, k));
             }
+        }
+        // a run of markers across the 4 KiB / 8 KiB / 64 KiB marks (every alignment of a multi-byte sequence)
+        for k in [4usize, 8, 64] {
+            let mut s = "x".repeat(1024 * k - 5);
+            for _ in 0..8 {
+                s.push(m);
+            }
+            s.push('z');
+            check(rep, &s, &format!("run of U+{:04X} across {}KiB", m as u32, k));
         }
     }
     // random mixtures
